@@ -1021,3 +1021,65 @@ def _pkg_unnest_else(srcs):
 
 VARIANTS.append(dict(id='PKG_S_nest_after_exit', props=ALL + ['C05'], file='*', expect=[], kind='silent', where='', pkg_all_fn=_pkg_nest_after_exit))
 VARIANTS.append(dict(id='PKG_S_unnest_else', props=ALL + ['C05'], file='*', expect=[], kind='silent', where='', pkg_all_fn=_pkg_unnest_else))
+
+
+# ---- package-wide: operands of every simple comparison swapped (a < b -> b > a, x == 0 -> 0 == x); messages of raises held in a local first
+_CMP_SWAP = {ast.Lt: ast.Gt, ast.Gt: ast.Lt, ast.LtE: ast.GtE, ast.GtE: ast.LtE, ast.Eq: ast.Eq, ast.NotEq: ast.NotEq}
+
+
+class _FlipCompare(ast.NodeTransformer):
+    def visit_Compare(self, node):
+        self.generic_visit(node)
+        if len(node.ops) == 1 and type(node.ops[0]) in _CMP_SWAP and not any(isinstance(y, (ast.Call, ast.NamedExpr)) for y in ast.walk(node)):
+            return ast.copy_location(ast.Compare(left=node.comparators[0], ops=[_CMP_SWAP[type(node.ops[0])]()], comparators=[node.left]), node)
+        return node
+
+
+def _pkg_flip_comparisons(srcs):
+    out = {}
+    for fn, text in srcs.items():
+        if fn.endswith('luts.py'):
+            out[fn] = text
+            continue
+        t = _FlipCompare().visit(ast.parse(text))
+        ast.fix_missing_locations(t)
+        out[fn] = ast.unparse(t) + '\n'
+    return out
+
+
+def _pkg_message_locals(srcs):
+    out, n = {}, 0
+    for fn, text in srcs.items():
+        if fn.endswith('luts.py'):
+            out[fn] = text
+            continue
+        t = ast.parse(text)
+
+        def rec(lst):
+            nonlocal n
+            i = 0
+            while i < len(lst):
+                s = lst[i]
+                for fld in ('body', 'orelse', 'finalbody'):
+                    sub = getattr(s, fld, None)
+                    if isinstance(sub, list) and sub and isinstance(sub[0], ast.stmt) and not isinstance(s, (ast.FunctionDef, ast.ClassDef)):
+                        rec(sub)
+                for h in getattr(s, 'handlers', []) or []:
+                    rec(h.body)
+                if isinstance(s, ast.Raise) and isinstance(s.exc, ast.Call) and len(s.exc.args) == 1 and isinstance(s.exc.args[0], (ast.JoinedStr, ast.Constant)) \
+                        and not s.exc.keywords:
+                    a = ast.Assign(targets=[ast.Name(id='_message', ctx=ast.Store())], value=s.exc.args[0])
+                    s.exc.args[0] = ast.Name(id='_message', ctx=ast.Load())
+                    lst.insert(i, a)
+                    i += 1
+                    n += 1
+                i += 1
+        for f in [x for x in ast.walk(t) if isinstance(x, ast.FunctionDef)]:
+            rec(f.body)
+        ast.fix_missing_locations(t)
+        out[fn] = ast.unparse(t) + '\n'
+    return out if n else None
+
+
+VARIANTS.append(dict(id='PKG_S_flip_comparisons', props=ALL + ['C05'], file='*', expect=[], kind='silent', where='', pkg_all_fn=_pkg_flip_comparisons))
+VARIANTS.append(dict(id='PKG_S_message_locals', props=ALL + ['C05'], file='*', expect=[], kind='silent', where='', pkg_all_fn=_pkg_message_locals))
